@@ -259,6 +259,9 @@ impl Property for C12 {
     fn components(&self) -> serde_json::Value {
         crate::components_mac()
     }
+    fn coverage_extra(&self, tier: Tier, runs: u64) -> serde_json::Value {
+        serde_json::json!({ "bounded_depth_enumeration": super::enum_coverage(tier, runs) })
+    }
     fn budget(&self, tier: Tier) -> u64 {
         match tier {
             Tier::Quick => 300_000,
@@ -269,6 +272,10 @@ impl Property for C12 {
         // one run in five borrows another property"s generator (same case type), so that this oracle also
         // judges histories of shapes its own generator does not produce
         if let Some(c) = super::cross_generate("C12", &["C04", "C05", "C07", "C08", "C09", "C10"], seed, run, tier, avoid) {
+            return c;
+        }
+        // bounded-depth enumeration over the event alphabet
+        if let Some(c) = super::enum_generate("C12", run, tier) {
             return c;
         }
         self.own_generate(seed, run, tier, avoid)
